@@ -266,6 +266,8 @@ class Tag(BaseTag):
                 del self._h5group["position"]
         else:
             dtype = DataType.Double
+            # convert first: a non-numeric value must fail before anything is written
+            pos = np.array(pos, dtype=dtype)
             self._h5group.write_data("position", pos, dtype)
         if self.file.auto_update_timestamps:
             self.force_updated_at()
@@ -289,6 +291,8 @@ class Tag(BaseTag):
                 del self._h5group["extent"]
         else:
             dtype = DataType.Double
+            # convert first: a non-numeric value must fail before anything is written
+            ext = np.array(ext, dtype=dtype)
             self._h5group.write_data("extent", ext, dtype)
         if self.file.auto_update_timestamps:
             self.force_updated_at()
